@@ -38,8 +38,34 @@ class Terms:
         self.prog = prog
         self._truth = {}
 
-    def field_names(self, fn, base_local, proj, ty=None):
+    def field_names(self, fn, base_local, proj, ty=None, want_ty=False):
         """best-effort field-name resolution of a projection rooted at a local (or at a value of type ty)"""
+        names, cur = self._field_names(fn, base_local, proj, ty)
+        return (names, cur) if want_ty else names
+
+    def origin_term(self, fn, o):
+        """term + type of a flow-insensitive origin (see Fn.origins)"""
+        k = o[0]
+        if k in ('arg', 'local'):
+            return self.local_term(fn, o[1]) if k == 'local' else fn.name_of(o[1]), fn.local_ty(o[1])
+        if k == 'call':
+            d = fn.B[o[1]]['t']['dest']
+            return self.call_term(fn, o[1]), (fn.local_ty(d['l']) if not d['p'] else None)
+        if k == 'field':
+            bt, bty = self.origin_term(fn, o[1])
+            if o[1][0] in ('arg', 'local'):
+                names, cur = self._field_names(fn, o[1][1], list(o[2]), None)
+            else:
+                names, cur = self._field_names(fn, None, list(o[2]), bty or '?')
+            return _join(bt, names), cur
+        if k in ('item', 'str', 'const', 'k'):
+            return str(o[1]), None
+        if k == 'agg':
+            rv = fn.B[o[1]]['s'][o[2]][1]
+            return (rv.get('variant') or 'aggregate') + '(..)', None
+        return k, None
+
+    def _field_names(self, fn, base_local, proj, ty=None):
         t = ty if ty is not None else fn.local_ty(base_local)
         out = []
         cur = t
@@ -48,17 +74,45 @@ class Terms:
             if p == '*':
                 continue
             if first and base_local == 1 and ty is None and fn.upvars and p.startswith('.') and int(p[1:]) in fn.upvars:
-                out.append('^' + fn.upvars[int(p[1:])]); cur = None; first = False
+                uv = fn.upvars[int(p[1:])]
+                out.append('^' + uv); cur = None; first = False
+                # type of the captured variable: the parent's local of the same name
+                par = fn.d.get('parent')
+                if par and par in self.prog.bodies:
+                    pf = self.prog.fn(par)
+                    for l, n in pf.varnames.items():
+                        if n == uv:
+                            cur = pf.local_ty(l)
+                            break
                 continue
             first = False
             if p == '*':
                 continue
             if p.startswith('as '):
-                out.append(p[3:].split('#')[0]); cur = None
+                vn = p[3:].split('#')[0]
+                out.append(vn)
+                # Option<T>/Result<T,E> payload types
+                if cur is not None and vn in ('Some', 'Ok') and '<' in cur:
+                    inner = cur[cur.index('<') + 1:cur.rindex('>')]
+                    depth = 0; cut = len(inner)
+                    for i, ch in enumerate(inner):
+                        if ch in '<([':
+                            depth += 1
+                        elif ch in '>)]':
+                            depth -= 1
+                        elif ch == ',' and depth == 0:
+                            cut = i; break
+                    cur = ('tuple1:' + inner[:cut].strip())
+                else:
+                    cur = None
                 continue
             if p.startswith('.'):
                 i = int(p[1:])
                 name = None
+                if cur is not None and cur.startswith('tuple1:'):
+                    cur = cur[7:] if i == 0 else None
+                    out.append(str(i))
+                    continue
                 if cur is not None:
                     from lib import strip_ty, ty_head
                     adt = self.prog.adts.get(ty_head(cur))
@@ -70,7 +124,7 @@ class Terms:
                 out.append(name if name is not None else str(i))
             else:
                 out.append(p); cur = None
-        return out
+        return out, cur
 
     def op_term(self, fn, op, depth=0):
         if 'c' in op:
